@@ -140,6 +140,7 @@ REQS = [(0.05, 16), (0.21, 64), (0.37, 7), (0.49, 128), (0.11, 2700), (0.3, 1600
 class AnalyzerHistory(TracedMachine):
     def init_state(self):
         self.an = None
+        self.nother = 0
         self.results = []       # (result, snapshot of raw fields, key)
         self.first = {}
         self.plan0 = None
@@ -269,6 +270,31 @@ class AnalyzerHistory(TracedMachine):
         self._store(self.an.compute_single_bin(float(p["f"][j]), L=int(p["L"][j])), ("plan", int(j)))
 
     @precondition(lambda self: self.an is not None)
+    @precondition(lambda self: self.an is not None)
+    @rule(seed=st.integers(0, 999), order=st.sampled_from([-1, 0, 1, 2]), win=st.sampled_from(["hann", "kaiser", "hanning"]),
+          psll=st.sampled_from([40, 100, 180]), use=st.sampled_from(["none", "plan", "compute", "single", "wrapper"]))
+    def other_analyzer(self, seed, order, win, psll, use):
+        self.step("other_analyzer", seed=seed, order=order, win=win, psll=psll, use=use)
+
+    def do_other_analyzer(self, seed, order, win, psll, use):
+        """an unrelated analyzer (other record, sampling rate and options) is created - and possibly used - in between:
+        nothing the analyzer under test returns may depend on it"""
+        import speckit
+        from speckit import SpectrumAnalyzer
+        z = np.random.default_rng(seed).standard_normal(700)
+        kw = dict(order=order, win=win, psll=psll, olap=0.3, Jdes=12, Kdes=5, bmin=2.0, Lmin=8, scheduler="ltf")
+        if use == "wrapper":
+            speckit.compute_spectrum(z, 7.0, **kw)
+            return
+        other = SpectrumAnalyzer(z, 7.0, **kw)
+        if use == "plan":
+            other.plan()
+        elif use == "compute":
+            other.compute()
+        elif use == "single":
+            other.compute_single_bin(1.3, L=100)
+        self.nother += 1
+
     @rule(t=st.integers(1, 16))
     def threads(self, t):
         self.step("threads", t=t)
@@ -329,7 +355,7 @@ class AnalyzerHistory(TracedMachine):
     def summary(self):
         nt = self.did_full and self.did_single and self.changes >= 1
         return nt, ["machine:full+single" if self.did_full and self.did_single else "machine:partial",
-                    "machine:backend=" + str(getattr(self, "backend", None))] + (["machine:force_target_nf"] if getattr(self, "force", 0) else [])
+                    "machine:backend=" + str(getattr(self, "backend", None))] + (["machine:other-analyzer"] if self.nother else []) + (["machine:force_target_nf"] if getattr(self, "force", 0) else [])
 
 
 PARTS = [
